@@ -93,6 +93,7 @@ type world struct {
 	leaves  []*l1leaf
 	l1hdr   map[uint64]*ethtypes.Header
 	l1tip   uint64
+	l1shape []int
 	finalized uint64
 
 	pool     []*claimSpec
@@ -128,13 +129,25 @@ func (w *world) buildL1(ctx context.Context) error {
 		main, other int // deposits existing after this block
 	}
 	steps := []step{{1, 0}, {1, 1}, {2, 1}, {2, 2}, {3, 2}}
+	shape := w.l1shape // L1 block of each info leaf (non-decreasing); several leaves may share a block
+	if len(shape) != len(steps) {
+		shape = []int{1, 2, 3, 4, 5}
+	}
 	nMain, nOther := 0, 0
-	for i, s := range steps {
-		blk := uint64(i + 1)
+	var evs []any
+	pos := uint64(0)
+	flush := func(blk uint64) error {
 		hdr := l1Header(blk, w.seed)
 		w.l1hdr[blk] = hdr
-		var evs []any
-		pos := uint64(0)
+		if err := w.l1store.VerifProcessBlock(ctx, aggsync.Block{Num: blk, Hash: hdr.Hash(), Events: evs}); err != nil {
+			return fmt.Errorf("L1 info store refused block %d: %w", blk, err)
+		}
+		w.l1tip = blk
+		evs, pos = nil, 0
+		return nil
+	}
+	for i, s := range steps {
+		blk := uint64(shape[i])
 		for nMain < s.main {
 			nMain++
 			d := w.newDep(atomMainBase+nMain, thisNet)
@@ -151,7 +164,7 @@ func (w *world) buildL1(ctx context.Context) error {
 			ler := w.otherLT.RootOf(nOther)
 			w.rollupT.Set(otherNet-1, atomLERBase+nOther, ler)
 			evs = append(evs, l1infotreesync.Event{VerifyBatches: &l1infotreesync.VerifyBatches{BlockPosition: pos, RollupID: otherNet,
-				NumBatch: blk, ExitRoot: ler, StateRoot: names.Keccak([]byte{byte(blk)})}})
+				NumBatch: uint64(i + 1), ExitRoot: ler, StateRoot: names.Keccak([]byte{byte(i + 1)})}})
 			pos++
 		}
 		lf := &l1leaf{atom: atomInfoBase + i, idx: i, blk: blk, mer: w.l1exit.RootOf(nMain), rer: w.rollupT.Root(),
@@ -163,10 +176,17 @@ func (w *world) buildL1(ctx context.Context) error {
 		w.leaves = append(w.leaves, lf)
 		evs = append(evs, l1infotreesync.Event{UpdateL1InfoTree: &l1infotreesync.UpdateL1InfoTree{BlockPosition: pos,
 			MainnetExitRoot: lf.mer, RollupExitRoot: lf.rer, ParentHash: lf.parent, Timestamp: lf.ts}})
-		if err := w.l1store.VerifProcessBlock(ctx, aggsync.Block{Num: blk, Hash: hdr.Hash(), Events: evs}); err != nil {
-			return fmt.Errorf("L1 info store refused block %d: %w", blk, err)
+		pos++
+		if i+1 == len(steps) || shape[i+1] != shape[i] {
+			if err := flush(blk); err != nil {
+				return err
+			}
 		}
-		w.l1tip = blk
+	}
+	for w.l1tip < uint64(len(steps)) { // empty L1 blocks up to block 5 (the finalized pointer ranges over 1..5)
+		if err := flush(w.l1tip + 1); err != nil {
+			return err
+		}
 	}
 	// claim pool: each deposit claimed once, against a leaf that covers it (not always the first covering one)
 	mk := func(mainnet bool, n int, leaf int) {
